@@ -178,6 +178,17 @@ func runC17Word(t *fsTarget, cfg explore.Config, keys map[string][]byte, word []
 	if err != nil {
 		return []string{"Open: " + err.Error()}
 	}
+	// preamble: six records (two full segments under ROLL), so that the word's overwrites and deletes create
+	// garbage that compaction removes, and the long-lived iterator below has records of several segments buffered
+	for i, r := range []string{"a", "b", "c", "d", "p5", "p6"} {
+		k := keys[r]
+		if k == nil {
+			k = []byte("pre-key-" + r)
+		}
+		if err := db.Put(k, []byte(fmt.Sprintf("pre%d", i))); err != nil {
+			return []string{"preamble Put: " + err.Error()}
+		}
+	}
 	// an iterator that lives across the steps: one Next per observation (what it has buffered must stay valid
 	// through compaction, growth and so on, identically on every file system)
 	longIt := db.Items()
